@@ -29,7 +29,39 @@
 //!
 //! usage: c19 gen <quick|thorough> | c19 one <pid> <api> <script>
 use minijinja::value::{Object, Value};
+#[cfg(feature = "hooks")]
 use minijinja::verif_hooks::output as vh;
+
+/// The unhooked build (`cargo build --no-default-features`: minijinja compiled WITHOUT
+/// `verif_hooks`, i.e. the code real users compile) has no operation log: every log is empty,
+/// the sink-level observations (calls, accepted bytes, digest, result, oracle fields) are the same.
+#[cfg(not(feature = "hooks"))]
+#[allow(dead_code)]
+mod vh {
+    #[derive(Debug, Clone, PartialEq, Eq)]
+    pub enum Target {
+        Base,
+        Capture(usize),
+        Discard(usize),
+    }
+    #[derive(Debug, Clone, PartialEq)]
+    pub enum Event {
+        New { out: u64, null: bool },
+        WriteStr { out: u64, target: Target, data: String, ok: bool },
+        WriteChar { out: u64, target: Target, data: char, ok: bool },
+        BeginCapture { out: u64, discard: bool },
+        EndCapture { out: u64, value: Option<String>, ptr: usize },
+        Emit { out: u64, value: Option<String>, ptr: usize, auto_escape: minijinja::AutoEscape, repr: &'static str, text: Option<String>, default_formatter: bool },
+        Enter { out: u64, kind: &'static str },
+        Leave { out: u64, kind: &'static str, ok: bool },
+    }
+    pub fn start() {}
+    pub fn stop() -> Vec<Event> {
+        vec![]
+    }
+}
+
+const HOOKED: bool = cfg!(feature = "hooks");
 use minijinja::{context, Environment, Error, ErrorKind, State};
 use mjh::*;
 use std::cell::RefCell;
@@ -1358,6 +1390,7 @@ fn model_fields(o: &Obs, clean_ops: &[String]) -> String {
         digest(&o.probe.calls),
         o.res,
         match log_prefix(clean_ops, &o.ops, o.probe.first_fail.as_deref().map(|f| f.starts_with("panic@")).unwrap_or(false)) {
+            _ if !HOOKED => "na".to_string(),
             Ok(n) => n.to_string(),
             Err(i) => format!("MISMATCH@{i}"),
         }
@@ -1468,8 +1501,11 @@ fn apis_of(prog: &Prog) -> Vec<String> {
     v
 }
 
-fn run_program(prog: &Prog, tier: &str, rng: &mut Rng, out: &mut impl io::Write, emits: &mut std::collections::BTreeSet<String>) {
+fn run_program(prog: &Prog, tier: &str, seed: u64, out: &mut impl io::Write, emits: &mut std::collections::BTreeSet<String>) {
     for api in apis_of(prog) {
+        // the random scripts of a program depend on the seed and the program only (subset runs line up)
+        let h = format!("{} {}", prog.pid, api).bytes().fold(0xcbf29ce484222325u64, |h, b| (h ^ b as u64).wrapping_mul(0x100000001b3));
+        let rng = &mut Rng::new(seed ^ h);
         let env = match make_env(prog, api == "fmt") {
             Ok(env) => env,
             Err(e) => {
@@ -1524,8 +1560,8 @@ fn run_program(prog: &Prog, tier: &str, rng: &mut Rng, out: &mut impl io::Write,
             same,
             clean.res,
             if refstr.is_some() { "ok" } else if plain_panic { "panic" } else { "err" },
-            if plain_tokens(&plain_ops) == plain_tokens(&clean.ops) { "same" } else { "differ" },
-            if base_chunks == clean.probe.chunks { "same" } else { "differ" },
+            if !HOOKED { "na" } else if plain_tokens(&plain_ops) == plain_tokens(&clean.ops) { "same" } else { "differ" },
+            if !HOOKED { "na" } else if base_chunks == clean.probe.chunks { "same" } else { "differ" },
             string_apis(&env, prog, &api, &refstr),
             prog.psyn.as_ref().map(|p| p.1).unwrap_or("na"),
             n_capemit,
@@ -1561,6 +1597,13 @@ fn run_strings(emits: &mut std::collections::BTreeSet<String>) {
         }
         strings.extend(next.iter().cloned());
         layer = next;
+    }
+    // longer than the inline small-string capacity: metacharacters at the start, the end, in the middle
+    let shorts: Vec<String> = strings.iter().filter(|s| s.chars().count() <= 2).cloned().collect();
+    for s in &shorts {
+        strings.push(format!("{}{s}", "x".repeat(25)));
+        strings.push(format!("{s}{}", "y".repeat(25)));
+        strings.push(format!("{}{s}{}{s}", "x".repeat(13), "é".repeat(7)));
     }
     for s in &strings {
         for ext in ["html", "txt", "json"] {
@@ -1687,24 +1730,27 @@ fn main() {
         Some("gen") => {
             let tier = args.get(2).map(|s| s.as_str()).unwrap_or("quick").to_string();
             let seed = seed_from_env();
-            let mut rng = Rng::new(seed ^ 0xC19);
+            // `sub`: every fixed program and a third of the generated ones (the unhooked build)
+            let sub = args.get(3).map(|s| s == "sub").unwrap_or(false);
             let mut emits = std::collections::BTreeSet::new();
             for prog in fixed_programs() {
-                run_program(&prog, &tier, &mut rng, &mut out, &mut emits);
+                run_program(&prog, &tier, seed, &mut out, &mut emits);
             }
-            let n = if tier == "thorough" { 1500 } else { 300 };
+            let n = if tier == "thorough" { 1500 } else { 300 } / if sub { 3 } else { 1 };
             for i in 0..n {
                 let prog = gen_program(seed, i);
-                run_program(&prog, &tier, &mut rng, &mut out, &mut emits);
+                run_program(&prog, &tier, seed, &mut out, &mut emits);
             }
-            let n = if tier == "thorough" { 1500 } else { 300 };
+            let n = if tier == "thorough" { 1500 } else { 300 } / if sub { 3 } else { 1 };
             for i in 0..n {
                 let prog = gen_structured(seed, i);
-                run_program(&prog, &tier, &mut rng, &mut out, &mut emits);
+                run_program(&prog, &tier, seed, &mut out, &mut emits);
             }
-            run_null(&mut out);
-            run_strings(&mut emits);
-            run_values(&mut emits);
+            if HOOKED {
+                run_null(&mut out);
+                run_strings(&mut emits);
+                run_values(&mut emits);
+            }
             for (i, e) in emits.iter().enumerate() {
                 writeln!(out, "emit\te{i} {e}").unwrap();
             }
